@@ -110,6 +110,10 @@ def MState.setAbsoluteTolerances (st : MState α) (v : List α) : MState α := {
 
 def MState.setRelativeTolerance (st : MState α) (v : α) : MState α := { st with rtol := v }
 
+/-- `State::operator=(const State&)`: every member of the target is replaced by the source's -- the name maps
+    and the name list as well as the data; nothing of the old target survives -/
+def MState.assign (_dst src : MState α) : MState α := src
+
 /-- reading a concentration by name -/
 def MState.concentration [OfNat α 0] (st : MState α) (name : String) (cell : Nat) : Option α :=
   (nmLookup st.varMap name).map fun j => rd (st.vars.getD cell #[]) j
